@@ -75,11 +75,11 @@ func genTopology(t *rapid.T, c *ev.Case, w *world) *world {
 		_, ipn, _ := net.ParseCIDR(cidr)
 		mr := &mRouter{idx: len(w.routers), name: fmt.Sprintf("r%d", len(w.routers)), cidr: ipn, parent: parent, holders: map[string]any{}}
 		cfg.CIDR, cfg.LoggerFactory, cfg.Name = cidr, lf, mr.name
-		// a quarter of the routers delay what they forward, and forwarding itself takes
+		// a sixth of the routers delay what they forward, and forwarding itself takes
 		// time there (the capture filter dawdles on every other datagram): delivery, order
 		// and "nothing admitted is lost" hold for such routers as well
 		var dawdle time.Duration
-		if rapid.IntRange(0, 3).Draw(t, "delayed") == 0 {
+		if rapid.IntRange(0, 5).Draw(t, "delayed") == 0 {
 			cfg.MinDelay = rapid.SampledFrom([]time.Duration{200 * time.Microsecond, time.Millisecond}).Draw(t, "minDelay")
 			dawdle = cfg.MinDelay * 6 / 5
 			c.Label("router/min-delay")
